@@ -156,13 +156,18 @@ type c30Case struct {
 	Ciphers    int         `json:"ciphers"` // 0 nil, 1 defaults, 2 TLS1.2-only, 3 legacy ids
 	Clients    []c30Client `json:"clients"`
 	Rotate     bool        `json:"rotate"`
+	// PreUpdate: a runtime reconfiguration that leaves the TLS settings as they are, made between Listen and the
+	// rotation step: "" none, "export" UpdateExportOptions(GetExportOptions()), "export2" the same twice,
+	// "tuning" UpdateTuningOptions
+	PreUpdate string `json:"pre_update,omitempty"`
 }
 
 var c30Versions = []uint16{0, tls.VersionTLS10, tls.VersionTLS11, tls.VersionTLS12, tls.VersionTLS13}
 
 func genC30(t *rapid.T) c30Case {
 	c := c30Case{MinV: rapid.IntRange(0, 4).Draw(t, "min"), MaxV: rapid.IntRange(0, 4).Draw(t, "max"), ClientAuth: rapid.IntRange(0, 4).Draw(t, "auth"),
-		CA: pick(t, "ca", 0, 1, 1, 1, 2), Ciphers: rapid.IntRange(0, 3).Draw(t, "ciphers"), Rotate: rapid.IntRange(0, 3).Draw(t, "rotate") == 0}
+		CA: pick(t, "ca", 0, 1, 1, 1, 2), Ciphers: rapid.IntRange(0, 3).Draw(t, "ciphers"), Rotate: rapid.IntRange(0, 2).Draw(t, "rotate") == 0,
+		PreUpdate: pick(t, "preupdate", "", "", "export", "export2", "tuning")}
 	if rapid.Bool().Draw(t, "sane") {
 		// bias towards configurations the server accepts
 		c.MinV, c.MaxV = pick(t, "smin", 0, 3, 3, 4), pick(t, "smax", 0, 3, 4, 4)
@@ -290,6 +295,16 @@ func runC30(tb stat.TB, c c30Case) {
 		if c30Versions[c.MaxV] != 0 && c30Versions[c.MaxV] < tls.VersionTLS13 {
 			good.Vers = tls.VersionTLS12
 		}
+		switch c.PreUpdate {
+		case "export", "export2":
+			for i := 0; i < len(c.PreUpdate)-5; i++ {
+				if err := n.UpdateExportOptions(n.GetExportOptions()); err != nil {
+					tb.Fatalf("harness: UpdateExportOptions(GetExportOptions()): %v", err)
+				}
+			}
+		case "tuning":
+			n.UpdateTuningOptions(func(t *absnfs.TuningOptions) { t.AttrCacheSize = 1234 })
+		}
 		okBefore, _, s1 := c30Null(addr, p, good)
 		if okBefore && s1 != nil && s1.Cmp(p.serial1) == 0 {
 			os.WriteFile(certFile, p.server2Cert, 0600)
@@ -307,7 +322,7 @@ func runC30(tb stat.TB, c c30Case) {
 				nt = true
 				okAfter, _, s2 := c30Null(addr, p, good)
 				if !okAfter || s2 == nil || s2.Cmp(p.serial2) != 0 {
-					if stat.Violate(tb, id, check, "rotated-certificate-not-presented", c, "%s: after replacing the files and GetExportOptions().TLS.ReloadCertificates() a new handshake presented serial %v (ok=%v), want the reloaded certificate %v", what, s2, okAfter, p.serial2) {
+					if stat.Violate(tb, id, check, "rotated-certificate-not-presented", c, "%s: after replacing the files and GetExportOptions().TLS.ReloadCertificates() (runtime update before: %q) a new handshake presented serial %v (ok=%v), want the reloaded certificate %v", what, c.PreUpdate, s2, okAfter, p.serial2) {
 						return
 					}
 				}
